@@ -60,6 +60,8 @@ var (
 	fset    = token.NewFileSet()
 	sites   []site
 	goStmts int
+	// mayBlock: the module uses synchronisation primitives, channels or goroutines
+	mayBlock bool
 )
 
 func die(f string, a ...any) {
@@ -112,6 +114,7 @@ func main() {
 			}
 			parsed[f] = af
 			collectGlobals(p, af)
+			scanBlocking(af)
 		}
 		sort.Strings(p.globals)
 		// globals registration file
@@ -145,7 +148,7 @@ func main() {
 	if err := os.WriteFile(filepath.Join(*out, "overlay.json"), oj, 0o644); err != nil {
 		die("%v", err)
 	}
-	sj, _ := json.Marshal(map[string]any{"mode": *mode, "sites": sites, "go_stmts": goStmts, "module": modPath})
+	sj, _ := json.Marshal(map[string]any{"mode": *mode, "sites": sites, "go_stmts": goStmts, "module": modPath, "may_block": mayBlock})
 	if err := os.WriteFile(filepath.Join(*out, "sites.json"), sj, 0o644); err != nil {
 		die("%v", err)
 	}
@@ -153,7 +156,7 @@ func main() {
 	for _, p := range pkgs {
 		nglob += len(p.globals)
 	}
-	fmt.Printf("instrument: mode=%s packages=%d globals=%d sites=%d go_stmts=%d\n", *mode, len(pkgs), nglob, len(sites)-1, goStmts)
+	fmt.Printf("instrument: mode=%s packages=%d globals=%d sites=%d go_stmts=%d may_block=%v\n", *mode, len(pkgs), nglob, len(sites)-1, goStmts, mayBlock)
 }
 
 func write(overlay map[string]string, virt, name, src string) {
@@ -223,6 +226,26 @@ func collectGlobals(p *pkgInfo, f *ast.File) {
 			}
 		}
 	}
+}
+
+// scanBlocking notes whether a file could block a goroutine or start one.
+func scanBlocking(f *ast.File) {
+	for _, im := range f.Imports {
+		if p, _ := strconv.Unquote(im.Path.Value); p == "sync" || p == "context" || p == "time" {
+			mayBlock = true
+		}
+	}
+	ast.Inspect(f, func(n ast.Node) bool {
+		switch t := n.(type) {
+		case *ast.GoStmt, *ast.SelectStmt, *ast.SendStmt, *ast.ChanType:
+			mayBlock = true
+		case *ast.UnaryExpr:
+			if t.Op == token.ARROW {
+				mayBlock = true
+			}
+		}
+		return true
+	})
 }
 
 var genRe = regexp.MustCompile(`^// Code generated .* DO NOT EDIT\.$`)
@@ -454,7 +477,8 @@ func instrumentFile(p *pkgInfo, name string, f *ast.File, full bool) string {
 	b.WriteString("\nvar _ = simrt.Yield\n")
 	// sanity: result must parse
 	if _, err := parser.ParseFile(token.NewFileSet(), name, b.Bytes(), 0); err != nil {
-		os.WriteFile("/verif/.work/bad.go", b.Bytes(), 0o644); die("instrumented %s does not parse: %v", name, err)
+		os.WriteFile("/verif/.work/bad.go", b.Bytes(), 0o644)
+		die("instrumented %s does not parse: %v", name, err)
 	}
 	return b.String()
 }
